@@ -61,12 +61,41 @@ def f_r2_init(schema: Schema, rep: Report):
 
     fn0 = p.get_function(BASE, "Aggregate.__init__").node
     fn = flat(p, BASE, fn0, schema.aggregate, keep=("validate_args", "_apply_args", "_apply_residual_kwargs"))
-    cfg = CFG(fn)
-    ex = Expander(fn)
     va = fn.args.vararg.arg if fn.args.vararg else None
     kw = fn.args.kwarg.arg if fn.args.kwarg else None
     if va is None or kw is None:
         raise AnalysisError("Aggregate.__init__ no longer takes *args/**kwargs")
+    # plain copies of the arguments bound once to a local (`members = tuple(args)`, `unconsumed = dict(kwargs)`) stand for
+    # the arguments themselves: same members, same names and values
+    copies = {}
+    stores_ = {}
+    for x_ in ast.walk(fn):
+        if isinstance(x_, ast.Name) and isinstance(x_.ctx, ast.Store):
+            stores_[x_.id] = stores_.get(x_.id, 0) + 1
+    for st_ in ast.walk(fn):
+        tg_ = st_.targets[0] if isinstance(st_, ast.Assign) and len(st_.targets) == 1 else (st_.target if isinstance(st_, ast.AnnAssign) and st_.value is not None else None)
+        if isinstance(tg_, ast.Name) and stores_.get(tg_.id) == 1:
+            t_ = text(st_.value).replace(" ", "")
+            if t_ in (f"tuple({va})", f"list({va})", f"{va}[:]"):
+                copies[tg_.id] = va
+            elif t_ in (f"dict({kw})", f"{kw}.copy()", "{**%s}" % kw, f"dict(**{kw})"):
+                copies[tg_.id] = kw
+    if copies:
+        class _Alias(ast.NodeTransformer):
+            def visit_Name(self, node):
+                if isinstance(node.ctx, ast.Load) and node.id in copies:
+                    return ast.copy_location(ast.Name(id=copies[node.id], ctx=ast.Load()), node)
+                return node
+
+        from .dataflow import clone as _clone_fn
+
+        fn = _Alias().visit(_clone_fn(fn))
+        ast.fix_missing_locations(fn)
+        for x_ in ast.walk(fn):
+            for ch_ in ast.iter_child_nodes(x_):
+                ch_._parent = x_
+    cfg = CFG(fn)
+    ex = Expander(fn)
 
     def self_call(name, need_args=True, need_kwargs=True):
         def pred(c):
